@@ -525,6 +525,8 @@ def run_copy_to_content(chk, F, fs, rule="P5.content", widths=None):
                                 want = [("S", last_word[0], (const(w) - kk) if e == "be" else const(0), kk)]
                                 if last_word[1]:
                                     fail("a fetched word is written twice")
+                                if not S.ent_le(const(1), kk):
+                                    fail("copy_to may fetch a word from the source without copying any bit of it (width %s): a copy that ends on a word boundary reads past what it needs - at the end of a strict stream that is a spurious error" % kk)
                                 last_word[1] = True
                                 partial = (last_word[0], kk)
                             cnt += 1
